@@ -5,7 +5,7 @@
     A subset of the cases is also evaluated by vm_compute on every run and
     must agree with the extracted code (bin/check). *)
 From Coq Require Import Extraction ExtrOcamlBasic ExtrOcamlNatInt ZArith.
-From FastorV Require Import Base.Scalar Model.Cfg Model.Matmul Model.TMatmul Model.Expr Model.ExprInt Model.Reduce Base.Shape Model.Views Model.RandomViews Model.Layout Model.Permute Model.Einsum Model.Network Model.Run.
+From FastorV Require Import Base.Scalar Model.Cfg Model.Matmul Model.TMatmul Model.Expr Model.ExprInt Model.Reduce Base.Shape Model.Views Model.RandomViews Model.Layout Model.Permute Model.Einsum Model.Network Model.Pivot Model.Run.
 Extraction Language OCaml.
 Extraction "extracted/fastor_model.ml"
   mkCfg ty_double ty_float ty_int32 ty_int64 ty_cfloat ty_cdouble
@@ -14,4 +14,4 @@ Extraction "extracted/fastor_model.ml"
   run_assign_Z run_reduce_Z run_preds run_det_Z
   run_view run_admissible
   run_rv_read run_rv_write run_filter_write run_idx2 run_idx_col run_idx_row run_idx_it_range run_idx_range_it
-  run_torowmajor run_tocolumnmajor run_permute run_transpose run_invp run_einsum run_classify run_network3 run_triplet_costs run_network4 run_simd_int run_simd_sse2 run_mask_store run_mask_load run_lu run_lu_inverse run_lu_solve.
+  run_torowmajor run_tocolumnmajor run_permute run_transpose run_invp run_einsum run_classify run_network3 run_triplet_costs run_network4 run_simd_int run_simd_sse2 run_mask_store run_mask_load run_lu run_lu_inverse run_lu_solve run_pivot run_apply_pivot run_reconstruct run_reconstruct_colwise.
